@@ -7,6 +7,7 @@ set (32: vector -> hash set, 1024: in-memory -> spilled)."""
 import json, sys
 args = [a for a in sys.argv[1:] if not a.startswith("--")]
 restart = "--restart" in sys.argv
+proj = "--proj" in sys.argv      # 2: firewall over the input, K projections over the firewall, one consumer per projection
 out, ks = args[0], [int(x) for x in args[1:]]
 def item(deps, w=1, c=0):
     return {"g": 0, "gc": 0, "mode": 0, "deps": deps, "w": w, "c": c}
@@ -14,10 +15,16 @@ def node(kind, code=(), init=0):
     return {"kind": kind, "init": init, "code": list(code), "post": 0, "panic_if": -1}
 with open(out, "w") as f:
     for k in ks:
-        nodes = [node("In"), node("Nm", [item([1])], init=1)]
-        nodes += [node("Nm", [item([2], c=i % 2)], init=i % 3) for i in range(k)]
+        if proj:
+            nodes = [node("In"), node("Fw", [item([1])], init=1)]
+            nodes += [node("Pj", [item([2], c=i % 2)], init=i % 3) for i in range(k)]
+            nodes += [node("Nm", [item([3 + i], c=1)]) for i in range(k)]
+            callers = list(range(k + 3, 2 * k + 3))
+        else:
+            nodes = [node("In"), node("Nm", [item([1])], init=1)]
+            nodes += [node("Nm", [item([2], c=i % 2)], init=i % 3) for i in range(k)]
+            callers = list(range(3, k + 3))
         prog = {"m": 5, "nodes": nodes}
-        callers = list(range(3, k + 3))
         order = callers[k // 2:] + callers[:k // 2]
         acts = []
         for rnd, v in enumerate((1, 3, 0)):
